@@ -1,4 +1,4 @@
-import Lemmas.ExtractOverlay
+import Lemmas.ExtractFails
 /-! # C19 — archive extraction reproduces the archive inside the destination only
 
 All theorems are about the definitions the model driver `drv_c19` executes (`Ex.tarExtract`, `Ex.zipExtract`,
@@ -649,6 +649,50 @@ theorem existing_file_rule (root : P) (hr : GoodPath root) (hroot : root ≠ [])
   have := extract_contained_inodes root hr mask es fs i (lt_of_getElem? hi) hout
   exact ⟨this.1.trans hi, this.2.trans hi⟩
 
+/-- *when the guard fails, in terms of the tree* (well-formed tree): `EnsureNoSymlinks(root, p)` fails for `p = root`
+    iff the root is a symbolic link; for any other `p` iff the root is a regular file, or some component of `p` below the
+    root is a symbolic link, or some component below the root other than the last is a regular file (`ENOTDIR`) -/
+theorem guard_error_iff (fs : FS) (hw : WF fs) (root p : P) :
+    ensureNoSymlinks fs root p = false ↔ GuardFails fs.view root p :=
+  guard_false_iff fs hw root p
+
+/-- *which iterations fail, in terms of the tree before the iteration only* (`StepFails`: look-ups, no loops, no
+    intermediate file systems — the replacement / `EEXIST` / guard behaviour spelled out): on a well-formed tree an
+    iteration of the tar loop fails iff the header is unreadable; or the name does not clean to a proper descendant of
+    the root (the root itself is allowed for a directory entry); or the guard fails (`guard_error_iff`); or a non-empty
+    proper prefix of the path (the path itself for a directory entry) exists and is not a directory; or — regular file —
+    the path is a directory or the payload is short (an existing regular file is rewritten, no error); or — symbolic link —
+    the target is empty or the path exists (`EEXIST`, whatever is there); or — hard link — the target does not clean to
+    a proper descendant of the root, the guard fails on it, it is not a regular file, or the path exists.  Zip: the same
+    on its three kinds, and a symbolic-link entry whose payload cannot be read.  Well-formedness is preserved by every
+    run (`extract_wf`), so with `extract_error_iff`, `extract_overlay` and `failed_step_effect` the outcome of every run
+    on every well-formed tree is determined by look-ups alone. -/
+theorem step_error_tree_iff (fs : FS) (hw : WF fs) (root : P) (hr : GoodPath root) (hroot : root ≠ []) (mask : Nat)
+    (e : Entry) :
+    ((tarOne fs root mask e).2 = false ↔ StepFails fs.view root e) ∧
+    ((e.kind = .reg ∨ e.kind = .dir ∨ e.kind = .symlink) →
+      ((zipOne fs root mask e).2 = false ↔ (StepFails fs.view root e ∨ (e.kind = .symlink ∧ e.short = true)))) :=
+  ⟨tarOne_stepFails_iff fs hw root hr hroot mask e, zipOne_stepFails_iff fs hw root hr hroot mask e⟩
+
+/-- *extraction over what a previous run left — files and directories*: if every entry of the archive is a directory
+    entry whose path is a directory already (any mode — it keeps it), or a complete regular-file entry whose path is a
+    regular file holding exactly the entry's bytes, the run returns no error and changes nothing (both loops).  By
+    `extract_reproduces` this is the situation after a first extraction of an archive of files and directories. -/
+theorem reextract_identity (fs : FS) (hw : WF fs) (root : P) (hr : GoodPath root) (hroot : root ≠ []) (mask : Nat)
+    (es : List Entry) (h : ∀ e ∈ es, Present fs root e) :
+    tarExtract fs root mask es = (fs, true) ∧ zipExtract fs root mask es = (fs, true) :=
+  extract_present fs hw root hr hroot mask es h
+
+/-- *… links*: a symbolic-link or hard-link entry whose path exists already fails, whatever is there (a link left by
+    the previous run: the guard refuses it as last component; anything else: `EEXIST`) — so a second extraction of an
+    archive with link entries stops with an error at its first link entry, having changed nothing before it
+    (`reextract_identity`) -/
+theorem reextract_link_fails (fs : FS) (root : P) (hr : GoodPath root) (hroot : root ≠ []) (mask : Nat) (e : Entry)
+    (hp : fs.get (cleanJoin root e.name) ≠ none) :
+    ((e.kind = .symlink ∨ e.kind = .link) → (tarOne fs root mask e).2 = false) ∧
+    (e.kind = .symlink → (zipOne fs root mask e).2 = false) :=
+  ⟨fun hk => tarOne_in_the_way fs root hr hroot mask e hk hp, fun hk => zipOne_in_the_way fs root hr hroot mask e hk hp⟩
+
 /-! ### the new theorems are not vacuous -/
 
 /-- a skipped type flag between two files: no error, nothing of it on disk -/
@@ -720,5 +764,19 @@ example : (tarExtract (tarExtract demoFs demoRoot 0o750
     [{ kind := .dir, name := [115], mode := 0o700 }, { kind := .reg, name := [115, 47, 116], data := [1] }]).1 demoRoot 0o750
     [{ kind := .dir, name := [115], mode := 0o700 }, { kind := .reg, name := [115, 47, 116], data := [1] }]).2 = true := by
   decide
+
+/-- `Present` holds of a file-and-directory archive in the tree its first extraction left -/
+example : ∀ e ∈ [({ kind := .dir, name := [115], mode := 0o700 } : Entry), { kind := .reg, name := [115, 47, 116], data := [1] }],
+    Present (tarExtract demoFs demoRoot 0o750
+      [{ kind := .dir, name := [115], mode := 0o700 }, { kind := .reg, name := [115, 47, 116], data := [1] }]).1 demoRoot e := by
+  intro e he
+  simp only [List.mem_cons, List.mem_nil_iff, or_false] at he
+  rcases he with rfl | rfl
+  · exact Or.inl ⟨rfl, Or.inr ⟨[115], [], by decide⟩, 0o700 &&& 0o750, by decide⟩
+  · exact Or.inr ⟨rfl, rfl, ⟨[115], [[116]], by decide⟩, 0, { data := [1], mode := 0o644 &&& 0o750 }, by decide, by decide, rfl⟩
+
+/-- the guard fails on a path through a pre-existing symbolic link, and `GuardFails` says so -/
+example : ensureNoSymlinks { nodes := [([], .dir 0o755), ([[100]], .dir 0o755), ([[100], [108]], .symlink [47, 101])] }
+    demoRoot [[100], [108], [120]] = false := by decide
 
 end C19
